@@ -89,11 +89,13 @@ PROPS.update({
                    assumptions=("A1", "A4", "A5", "A6", "A7", "A9", "A10", "Z3", "PYVC"), min_obligations=400,
                    shards={"add_range": 16, "replace_outer": 8, "replace_two_way": 2, "Fragment.cut": 8, "Fragment.append": 4, "replace_three_way": 8},
                    bounded_only=["token-level splice semantics of Node.replace / Node.slice", "Fragment.from_array (text merging); token content of Fragment.cut / append", "schema validity of the result"]),
-    "C03": _hybrid("C03", "c03", ["contracts.transform_steps"],
+    "C03": _hybrid("C03", "c03", ["contracts.transform_steps", "contracts.model_replace"],
+                   "the size clause for deletions: a ReplaceStep with an empty slice that applies shrinks the document by exactly to - from, which is what its map [from, to - from, 0] says "
+                   "(ReplaceStep.apply <- from_replace <- Node.replace <- replace_outer <- replace_two_way / add_range / add_node with exact size accounting; resolved positions with prefix-sum offsets); "
                    "the shape of every step's map (ReplaceStep / ReplaceAroundStep.get_map ranges from the step's fields, empty map for attribute / mark steps), "
                    "Transform.add_step records exactly one map per step, StepMap._map / for_each obey the documented rule (from C08).",
                    "faithfulness of the map to the document change (size delta, tokens at mapped positions) for every applied step of histories and primitive steps; it rests on the splice behaviour of replace (C02).",
-                   min_obligations=100, shards={"StepMap._map": 8}, bounded_only=["token-level faithfulness of the map"]),
+                   min_obligations=500, shards={"StepMap._map": 8, "add_range": 16, "replace_outer": 8, "ResolvedPos.resolve": 4}, bounded_only=["token-level faithfulness of the map", "size clause for insertions / open slices / replace-around steps"]),
     "C04": _hybrid("C04", "c04", ["contracts.transform_steps"],
                    "Transform.add_step / maybe_step / step keep steps, docs and maps aligned one-to-one, a rejected step changes nothing (frame), step() raises only TransformError; "
                    "ReplaceStep.invert's fields; lemmas: the inverted replace / replace-around step's map maps every position like the inverted map (complete unrolling); mark-step inverses swap add/remove.",
